@@ -92,4 +92,3 @@ pub fn a_label_name(name: &str) -> String {
 		.collect::<Vec<_>>()
 		.join(".")
 }
-
